@@ -50,6 +50,8 @@ pub struct Evaluation {
     pub log: String,
     /// Human-readable rendering of the case for the evidence file.
     pub sample: serde_json::Value,
+    /// The harness failed while evaluating this case: the check exits 2, whatever else it saw.
+    pub harness_error: Option<String>,
 }
 
 impl Evaluation {
@@ -384,6 +386,7 @@ pub fn run_check<P: Property>(p: &P, opts: &RunOpts) -> i32 {
             Tier::Thorough => 6 * 3600,
         });
     let capped = AtomicU64::new(0);
+    let harness_errors: Mutex<Vec<String>> = Mutex::new(vec![]);
     std::thread::scope(|s| {
         for _ in 0..workers() {
             s.spawn(|| {
@@ -402,6 +405,9 @@ pub fn run_check<P: Property>(p: &P, opts: &RunOpts) -> i32 {
                     let run_seed = rng::mix(opts.seed, i);
                     let case = p.generate(run_seed, i);
                     let ev = judge(p, &case, &allowed);
+                    if let Some(h) = &ev.harness_error {
+                        harness_errors.lock().unwrap().push(format!("run {i}: {h}"));
+                    }
                     if let Some(v) = &ev.violation {
                         let mut f = found.lock().unwrap();
                         f.insert(i, (case.clone(), v.clone()));
@@ -425,6 +431,10 @@ pub fn run_check<P: Property>(p: &P, opts: &RunOpts) -> i32 {
             });
         }
     });
+    if let Some(h) = harness_errors.lock().unwrap().first() {
+        println!("HARNESS-ERROR: {h}");
+        return 2;
+    }
     if capped.load(Ordering::SeqCst) != 0 {
         println!("HARNESS-ERROR: wall-clock cap of {wall_cap_s}s hit before the run count was reached");
         return 2;
